@@ -1481,7 +1481,7 @@ class Interp:
                 return name, self.bind_fn_generics(name, b, gargs, ctx)
         return None
 
-    def pick_dup(self, info, method, b, self_ty, targs):
+    def pick_dup(self, info, method, b, self_ty, targs, full_self=None):
         names = info.methods[method]
         if len(names) == 1:
             return names[0]
@@ -1495,6 +1495,24 @@ class Interp:
         ex = [n for n in best or names if any(last_seg(ty_str(ty_parse(t))) in want for _, t in self.p.fns[n].args[:1])]
         if len(ex) == 1:
             return ex[0]
+        # impls stamped out by a macro over a metavariable self type (`impl<T> Tr for $ptr` for &T, &mut T, Box<T>): the receiver type
+        # in each duplicate's MIR signature (minus the `&self` reference) must unify with the actual self type
+        fits = []
+        for n in names:
+            a0 = self.p.fns[n].args[:1]
+            if not a0:
+                continue
+            try:
+                t = ty_parse(a0[0][1])
+            except Exception:
+                continue
+            if t[0] == 'ref':
+                t = t[2]
+            gens = set(generic_names(a0[0][1])) | set(info.gens)
+            if any(unify(self.canon_ty(self.p.fns[n].crate, t), cand_ty, gens, {}) for cand_ty in ([full_self] if full_self is not None else []) + [self_ty]):
+                fits.append(n)
+        if len(fits) == 1:
+            return fits[0]
         raise Unsupported(f'ambiguous duplicate {method} in {info}: {names} want={want}')
 
     def dispatch_target(self, self_ty, trait, method, gargs, args, st, ctx):
@@ -1596,7 +1614,7 @@ class Interp:
             info, b = matches[0]
             self.infer_item_params(info, b)
             if method in info.methods:
-                name = self.pick_dup(info, method, b, head, targs)
+                name = self.pick_dup(info, method, b, head, targs, full_self=self_ty)
                 b['Self'] = self_ty
                 return name, self.bind_fn_generics(name, b, gargs, ctx)
             # provided method of a repository trait
